@@ -12,6 +12,10 @@ E1, bounded-exhaustive, on the real DefaultArgsParser (fresh parser per parse):
      option), so the line carries ONE fault and the predicted class is exact.
  (c) valid lines with a bare optional-value option without default (the corner C01 leaves out): containment only.
 
+Bounds.  quick: soup length <= 3 over 25 tokens (24 + the VERIF_SEED token) and length 4..5 over 8 of them, 20 formats;
+faults on 321 formats (49 option pairs, 59 option kinds with a command name, 213 argument shapes).  thorough: soup length <= 4
+over 25, 5..6 over 8, 7 over 6 tokens; faults on 720 formats (3 single-valued arguments, two values per multi option/argument).
+
 Oracle.  strict: outcome in {return, CannotParseArgsException, NoSuchOptionException, ValueError}; for (b) exactly the
 predicted class.  lenient: never CannotParseArgsException / NoSuchOptionException (and nothing outside
 {return, ValueError}); whenever strict returns, lenient returns and every view of the two results is equal.
